@@ -20,6 +20,30 @@ CHECKS = {
    technique="runtime monitoring: algebraic-law monitor evaluated on the real interpreter over all pairs/triples of a user-reachable value pool",
    text="The laws of the statement (reflexive, symmetric, != negation; trichotomy, unions, <=> antisymmetry, transitivity, max/min/between?/clip agreement) are evaluated by the real interpreter for every pair of ≈110 pool values (every built-in data type, nested containers, Either/wrapped errors, funcs, typed descendants) and every pair/triple of each ordered family; exhaustive over the pool, thorough also over array/object/map wrappings of each value.",
    note="Trusted: nothing but the interpreter's own booleans; the pool is fixed (values outside it are not explored). Cross-family comparisons (int vs float) are TypeErr by definition and not judged."),
+ "C01": dict(level="exploration", design="§3 C01",
+   technique="runtime monitoring: crash oracle (recover(), worker death, CLI stderr/exit status, empty stack trace) over fuzzed executions of every public entry point, with fuel/depth/heap monitors through hook H1",
+   text="Every (prototype, property) found at run time is called with pool receivers/arguments in 7 call forms, every pool value is indexed by every pool value, random ill-typed programs, mutated corpus programs, stdin doubles × failing stdout, RunSource, the REPL, RunTest and a sample through the built CLI are executed on the real interpreter; any host panic, fatal error, Go-nil result or top-level error without stack trace is a violation, de-duplicated by panic site. Cut-offs (fuel, depth, heap, watchdog, allocation-size panics) are inconclusive.",
+   note="Trusted: the transcription of web/wasm/executor.go:execute (syscall/js cannot be built natively). Only paths the generators drive are observed."),
+ "C02": dict(level="exploration", design="§3 C02",
+   technique="runtime monitoring: metamorphic + reference-model monitor over executions of the real parser (minimal text vs fully parenthesised text vs independent precedence model)",
+   text="All 23² infix pairs and 23³ triples, every construct nested in every operand position of every other construct (≈8 k), jump statements over every construct and guard, and seed-determined random trees are parsed by the real parser; Parse(minimal).String() must equal Parse(fully parenthesised).String() and the rendering of an independent model of the documented table. Exhaustive for the listed finite families.",
+   note="Trusted: the transcription of docs/reference/operators.md and the rendering rules of Program.String(). Combinations the table cannot define are not generated."),
+ "C06": dict(level="exploration", design="§3 C06",
+   technique="runtime monitoring: structural-invariant monitor (walker over live interpreter objects at quiescent points) + boundary cross-check of Inspect()",
+   text="Histories of 10–60 statements apply every built-in/native property, unpacking literals, */** calls, all chain contexts, slicing and repeated-source patterns to earlier values that are all kept alive; after each statement every previously seen object reachable from the scope is re-fingerprinted (payload, proto, ordered child pointers, key lists) and every variable's Inspect() is compared with what it printed when bound.",
+   note="Trusted: the walker sees exported fields only; iterators and variable frames are exempt by the statement."),
+ "C16": dict(level="exploration", design="§3 C16",
+   technique="runtime monitoring: metamorphic monitor over executions of the real lexer/parser (layout padding, token length, reader chunking)",
+   text="A kit program with every grammar-allowed line-break place marked, corpus files (breaks found by an independent scanner) and long single tokens are re-parsed under 6 padding kinds × run lengths up to 70 000 bytes around the 1 KiB/2 KiB boundaries × leading shifts, token lengths up to 70 000 at 3 offsets, and 16 chunking readers; the printed AST (or the token's value) must equal the base parse.",
+   note="Trusted: Program.String() identifies the parse; the scanner declines corpus files it does not fully understand."),
+ "C19": dict(level="exploration", design="§3 C19",
+   technique="runtime monitoring: cross-process differential monitor + structural monitor over built-in objects at quiescent points",
+   text="Each B program is observed twice in a newly started process and then, in a long-lived interpreter, in a fresh scope after each of 16 (quick) histories of 1–8 programs; stdout, value, error and stack trace must be byte-identical; after every history program all objects reachable from the const env are compared with their start-up fingerprint (incl. stack-trace text of error objects), history variables must be undefined afterwards, and RunTest(dir) must equal the files run alone.",
+   note="Trusted: transcription of the playground's execute(); B programs are deterministic by construction (checked by two fresh runs)."),
+ "C20": dict(level="exploration", design="§3 C20",
+   technique="runtime monitoring: Go race detector + runtime concurrent-map detector under yield-point stress (hook H2) + porcupine linearizability check of recorded symbol-table histories + functional oracle on every concurrent evaluation",
+   text="Race-built workers run 2–16 goroutines evaluating symbol-interning / symbol-printing programs in separate scopes, fresh start-ups under GOMAXPROCS 1/2/4/16 and the real http module under concurrent clients; any race report with a /repo frame is a violation. Plain workers repeat the scope workload with yield points (a concurrent map fault kills the worker = violation) and record GetSymHash/SymHash2Str histories checked per key by porcupine; every evaluation's and request's result is also checked.",
+   note="Trusted: Go's race detector (happens-before, executed paths only), porcupine v1.3.0, the sequential model of the intern table. Schedules are sampled."),
 }
 
 ALL = ["C%02d" % i for i in range(1, 21)]
